@@ -17,7 +17,7 @@
 From Coq Require Import NArith List.
 From mathcomp Require Import all_ssreflect all_algebra.
 From Verif Require Import Lib.Bytes Lib.Assoc Lib.Lagrange.
-From Verif Require Import Model.EpochKG Proofs.EpochKG Proofs.EpochKGHandler.
+From Verif Require Import Model.EpochKG Proofs.EpochKG Proofs.EpochKGHandler Proofs.EpochKGExamples.
 Set Implicit Arguments. Unset Strict Implicit. Unset Printing Implicit Defensive.
 Import GRing.Theory.
 Local Open Scope ring_scope.
@@ -158,3 +158,36 @@ by move=> g r; rewrite [f.[0] * h x]mulrC -!mulrA [g * r]mulrC.
 Qed.
 
 End Exponent.
+
+(* ---- the hypotheses of key_correct are satisfiable: F = rat, f = X + 3 (threshold 2),
+   n = 3, two valid shares and one junk share ---- *)
+Import Num.Theory.
+Section ExponentExample.
+Definition exf : {poly rat} := 'X + 3%:R%:P.
+Definition exh : bytes -> rat := fun _ => 1.
+Definition exl : list (share rat) :=
+  [:: mkShare Ex.A Ex.s0 (exf.[X _ Ex.s0] * exh Ex.A);
+      mkShare Ex.A Ex.s1 0;
+      mkShare Ex.A Ex.s2 (exf.[X _ Ex.s2] * exh Ex.A)].
+
+Lemma example_key_correct :
+  (size exf <= N.to_nat Ex.t)%N /\ xco_inj_below [fieldType of rat] Ex.n /\ N.le 1 Ex.t /\
+  senders_below Ex.n exl /\
+  exists k, key_of (run rat (verifyF exf exh) (@combineF _) Ex.n Ex.t exl) Ex.A = Some (Some k).
+Proof.
+split; first by rewrite /exf size_XaddC.
+split; first by move=> i j _ _ /eqP; rewrite /xco eqr_nat => /eqP [].
+split; first by [].
+have below : senders_below Ex.n exl by repeat constructor.
+split; first by [].
+have t1 : N.le 1 Ex.t by [].
+apply/(proj1 (@exactly_at_threshold rat (verifyF exf exh) (@combineF _) Ex.n Ex.t exl Ex.A t1 below)).
+exists [:: Ex.s0; Ex.s2]; split; first by repeat constructor => /=; intuition discriminate.
+split; first by [].
+move=> s /= [<-|[<-|[]]].
+- exists (mkShare Ex.A Ex.s0 (exf.[X _ Ex.s0] * exh Ex.A)); split; first by left.
+  by rewrite /verifyF /= eqxx.
+- exists (mkShare Ex.A Ex.s2 (exf.[X _ Ex.s2] * exh Ex.A)); split; first by right; right; left.
+  by rewrite /verifyF /= eqxx.
+Qed.
+End ExponentExample.
